@@ -347,7 +347,9 @@ func appendToList(a list, err Error) list {
 		if slices.Contains(a, err) {
 			return a
 		}
-		return append(a, err)
+		// The list may be shared (for instance held by a value used from
+		// several goroutines): never write into its spare capacity.
+		return append(slices.Clip(a), err)
 	}
 }
 
